@@ -26,7 +26,7 @@ func genHttpTrailer(r *Rand, tier string, emit func(sx.Sx)) {
 		{{"X-Sum", "900150983cd24fb0"}},
 		{{"X-Sum", "900150983cd24fb0"}, {"X-Signature", "sig=abc; alg=hs256"}},
 		{{"Grpc-Status", "0"}, {"Grpc-Message", ""}},
-		{{"X-Keep", "again"}},                 // repeats a name of the header block
+		{{"X-Keep", "again"}},                    // repeats a name of the header block
 		{{"X-Multi", "one"}, {"X-Multi", "two"}}, // the same name twice
 		{{"Server-Timing", "db;dur=53, app;dur=47.2"}, {"Etag", "\"abc\""}},
 	}
